@@ -12,14 +12,22 @@ EXTENDS Stages, TLC, Json, IOUtils
 BGD == INSTANCE BindGroupData
 TC == INSTANCE TypeClosure
 L == INSTANCE Layout
+ST == INSTANCE Structs
 
 Rec == ndJsonDeserialize(IOEnv.TRACE)
 Enforce == IOEnv.ENFORCE
 
-VARIABLES l, cur, nj, nbad
-vars == <<l, cur, nj, nbad>>
+(* memo: what earlier calls on the SAME source returned (History: output is a function of the input). *)
+(* It is reset whenever the source changes; the driver keeps calls on one source adjacent.             *)
+(* ph: the `phase` hook events of the current call (Generator.tla names the phases).                    *)
+VARIABLES l, cur, nj, nbad, memo, ph
+vars == <<l, cur, nj, nbad, memo, ph>>
+PhaseSeq == << "parsed", "validated", "bind_group_data", "stages", "structs", "assembled" >>
 
 Chk(ok, msg) == IF ok THEN {} ELSE {msg}
+RECURSIVE IsSubSeq(_, _)
+IsSubSeq(a, b) == IF a = << >> THEN TRUE ELSE IF b = << >> THEN FALSE
+                  ELSE IF Head(a) = Head(b) THEN IsSubSeq(Tail(a), Tail(b)) ELSE IsSubSeq(a, Tail(b))
 Str(x) == ToString(x)
 NoVerdict == [ dom |-> FALSE, fails |-> {} ]
 
@@ -138,8 +146,81 @@ C13(c, o) ==
                   \cup Chk(rs = cst, "range stages " \o ToJson(rs) \o " differ from PUSH_CONSTANT_STAGES " \o ToJson(cst))
              ELSE {}) ]
 
+(* ------------------------------------------------------------------ memo (History) *)
+MemoFor(c) == IF memo.sha = c.src_sha THEN memo.m ELSE << >>
+(* look up key k: "" when absent *)
+MGet(m, k) == IF k \in DOMAIN m THEN m[k] ELSE ""
+MPut(m, k, v) == IF k \in DOMAIN m THEN m ELSE [ x \in DOMAIN m \cup {k} |-> IF x = k THEN v ELSE m[x] ]
+SameOrNew(m, k, v, msg) == Chk(MGet(m, k) \in {"", v}, msg \o " (" \o MGet(m, k) \o " before, " \o v \o " now)")
+
+(* ------------------------------------------------------------------ C09 *)
+StructFails(S, o, st) ==
+  LET n == st.name IN
+  IF n \notin StructNames(S) THEN { "emitted struct " \o n \o " is not a WGSL struct" } ELSE
+  Chk(Range(st.derives) = ST!Derives(S, n, o), "derives of " \o n \o " are " \o ToJson(Range(st.derives)) \o " expected " \o ToJson(ST!Derives(S, n, o)))
+  \cup Chk(Len(st.derives) = Cardinality(Range(st.derives)), "duplicate derive on " \o n)
+  \cup Chk(st.repr_c = ST!ReprC(S, n), "repr(C) on " \o n \o " is " \o Str(st.repr_c) \o " expected " \o Str(ST!ReprC(S, n)))
+  \cup Chk((Len(st.asserts) > 0) = ST!HasAsserts(S, n, o), "layout assertions on " \o n \o ": " \o Str(Len(st.asserts)) \o ", expected present = " \o Str(ST!HasAsserts(S, n, o)))
+  \cup (IF ST!HasAsserts(S, n, o) THEN Chk(Len(st.asserts) = Len(ST!Fields(S, n)) + 1, "number of layout assertions on " \o n \o " is " \o Str(Len(st.asserts))) ELSE {})
+C09(c, o) ==
+  IF ~ValidAll(o) \/ ~Projected(o) THEN [ dom |-> FALSE, fails |-> {}, m |-> MemoFor(c) ] ELSE
+  LET m == MemoFor(c)
+      kRest == "rest"
+      kStructs == "structs|" \o ToString(ST!StructOptKey(c.opts))
+      kAll == "all|" \o ToString(ST!StructOptKey(c.opts)) \o (IF Has(c.opts, "include") THEN c.opts.include ELSE "")
+  IN [ dom |-> TRUE,
+       fails |-> (IF HasS(c) THEN UNION { StructFails(c.S, c.opts, o.out.structs[i]) : i \in DOMAIN o.out.structs } ELSE {})
+                 \cup SameOrNew(m, kRest, o.out.rest_sha, "an option changed output outside the struct definitions")
+                 \cup SameOrNew(m, kStructs, o.out.structs_sha, "struct section differs although the struct options agree")
+                 \cup SameOrNew(m, kAll, o.tokens_sha, "formatter / validation option changed the program"),
+       m |-> MPut(MPut(MPut(m, kRest, o.out.rest_sha), kStructs, o.out.structs_sha), kAll, o.tokens_sha) ]
+
+(* ------------------------------------------------------------------ C17 *)
+Renders(o) == Has(o, "renders") /\ o.renders.to_string.ok /\ o.renders.to_string_with_path.ok
+C17(c, o) ==
+  LET m == MemoFor(c)
+      k == "c17|" \o ToString([ c.opts EXCEPT !.validate = "" ])
+  IN
+  IF ~ParseOk(o) THEN
+    [ dom |-> TRUE, m |-> m, fails |->
+        Chk(ph = << >>, "generation phases ran on a source the front end rejects: " \o ToJson(ph))
+        \cup Chk(o.ret.kind # "panic", "panic on a source the front end rejects: " \o (IF Has(o.ret, "msg") THEN o.ret.msg ELSE ""))
+        \cup Chk(o.ret.kind # "ok", "Ok returned for a source the front end rejects")
+        \cup (IF o.ret.kind = "err" THEN
+                 Chk(o.ret.err = "ParseError", "front end rejects the source but the error is " \o o.ret.err)
+                 \cup (IF o.ret.err = "ParseError" THEN Chk(o.ret.msg = o.oracle.parse.msg, "parse error does not carry the front end's diagnostic") ELSE {})
+                 \cup Chk(Renders(o), "rendering the error against the source panicked")
+               ELSE {}) ]
+  ELSE IF ValidatorRejects(c, o) THEN
+    [ dom |-> TRUE, m |-> m, fails |->
+        Chk(ph = << "parsed" >>, "phases before the validation gate: " \o ToJson(ph) \o " (expected only parsed)")
+        \cup Chk(o.ret.kind # "panic", "panic on a module the validator rejects: " \o (IF Has(o.ret, "msg") THEN o.ret.msg ELSE ""))
+        \cup Chk(o.ret.kind # "ok", "Ok returned for a module the validator rejects")
+        \cup (IF o.ret.kind = "err" THEN
+                 Chk(o.ret.err = "ValidationError", "validator rejects the module but the error is " \o o.ret.err)
+                 \cup (IF o.ret.err = "ValidationError" THEN Chk(o.ret.msg = o.oracle.valid_req.display, "validation error differs from the validator's") ELSE {})
+                 \cup Chk(Renders(o), "rendering the error against the source panicked")
+               ELSE {}) ]
+  ELSE
+    (* the source passes the gates that were requested: validation must change nothing *)
+    [ dom |-> TRUE,
+      fails |-> Chk(~(o.ret.kind = "err" /\ o.ret.err \in {"ParseError", "ValidationError"}), "parse/validation error for a source that passes: " \o (IF Has(o.ret, "display") THEN o.ret.display ELSE ""))
+                \cup (IF RetOk(o) THEN Chk(ph = PhaseSeq, "HOOK phase events of a successful call are " \o ToJson(ph)) ELSE {})
+                \cup SameOrNew(m, k, IF RetOk(o) THEN o.text_sha ELSE o.ret.kind, "enabling validation changed the result"),
+      m |-> MPut(m, k, IF RetOk(o) THEN o.text_sha ELSE o.ret.kind) ]
+
+(* ------------------------------------------------------------------ C18 *)
+RetSig(o) == IF RetOk(o) THEN o.text_sha ELSE IF o.ret.kind = "err" THEN "err:" \o o.ret.display ELSE "panic"
+C18(c, o) ==
+  LET m == MemoFor(c)
+      k == "c18|" \o ToString(c.opts)
+  IN [ dom |-> TRUE,
+       fails |-> SameOrNew(m, k, RetSig(o), "two calls with equal source and options returned different results")
+                 \cup (IF Has(o, "repeat_same") THEN Chk(o.repeat_same, "repeated calls in one process returned different text") ELSE {}),
+       m |-> MPut(m, k, RetSig(o)) ]
+
 (* ------------------------------------------------------------------ dispatch *)
-Judge(c, o) ==
+Judge0(c, o) ==
   CASE Enforce = "C11" -> C11(c, o)
     [] Enforce = "C03" -> C03(c, o)
     [] Enforce = "C08" -> C08(c, o)
@@ -147,23 +228,40 @@ Judge(c, o) ==
     [] Enforce = "C13" -> C13(c, o)
     [] OTHER -> NoVerdict
 
+Stateless(r, c) == [ dom |-> r.dom, fails |-> r.fails, m |-> MemoFor(c) ]
+Judge(c, o) ==
+  CASE Enforce = "C09" -> C09(c, o)
+    [] Enforce = "C17" -> C17(c, o)
+    [] Enforce = "C18" -> C18(c, o)
+    [] OTHER -> Stateless(Judge0(c, o), c)
+
 Emit1(c, m) == PrintT("VERDICT " \o ToJson([ prop |-> Enforce, id |-> c.id, family |-> c.family, msg |-> m ]))
 
-Init == l = 1 /\ cur = [ id |-> "", has_s |-> FALSE ] /\ nj = 0 /\ nbad = 0 /\ TLCSet(1, 0) /\ TLCSet(2, 0)
+Init == l = 1 /\ cur = [ id |-> "", has_s |-> FALSE ] /\ nj = 0 /\ nbad = 0 /\ memo = [ sha |-> "", m |-> << >> ] /\ ph = << >>
+        /\ TLCSet(1, 0) /\ TLCSet(2, 0)
 
 Step ==
   /\ l <= Len(Rec)
   /\ l' = l + 1
   /\ LET e == Rec[l] IN
-     CASE e.ev = "case" -> cur' = e /\ UNCHANGED <<nj, nbad>>
+     CASE e.ev = "case" -> cur' = e /\ ph' = << >> /\ UNCHANGED <<nj, nbad, memo>>
+       [] e.ev = "sched" ->
+            (* the recorded order of turns must be the exported interleaving (a subsequence of it when a
+               call finished early and its remaining turns were skipped) *)
+            LET ok == IsSubSeq(e.order, e.schedule) /\ (Len(e.order) = Len(e.schedule) => e.order = e.schedule)
+            IN /\ (IF ok THEN TRUE ELSE PrintT("VERDICT " \o ToJson([ prop |-> Enforce, id |-> e.id, family |-> "sched", msg |-> "HOOK recorded interleaving is not the exported schedule" ])))
+               /\ nbad' = nbad + (IF ok THEN 0 ELSE 1) /\ TLCSet(2, nbad')
+               /\ UNCHANGED <<cur, nj, memo, ph>>
+       [] e.ev = "phase" -> ph' = (IF e.name \in Range(PhaseSeq) THEN Append(ph, e.name) ELSE ph) /\ UNCHANGED <<cur, nj, nbad, memo>>
        [] e.ev = "obs" ->
             LET r == Judge(cur, e) IN
             /\ \A m \in r.fails : Emit1(cur, m)
             /\ nj' = nj + (IF r.dom THEN 1 ELSE 0)
             /\ nbad' = nbad + Cardinality(r.fails)
             /\ TLCSet(1, nj') /\ TLCSet(2, nbad')
-            /\ UNCHANGED cur
-       [] OTHER -> UNCHANGED <<cur, nj, nbad>>
+            /\ memo' = [ sha |-> cur.src_sha, m |-> r.m ]
+            /\ UNCHANGED <<cur, ph>>
+       [] OTHER -> UNCHANGED <<cur, nj, nbad, memo, ph>>
 
 Spec == Init /\ [][Step]_vars
 
